@@ -2367,10 +2367,13 @@ class quantized_relu(base_quantizer.BaseQuantizer):  # pylint: disable=invalid-n
         str(self.integer.numpy() if isinstance(self.integer, tf.Variable
                                               ) else self.integer))
 
+    # The flags are positional: a flag is also printed when a later one is set,
+    # so that every value stays in the slot of its own argument.
     flags = [str(self.bits), integer_bits]
-    if self.use_sigmoid or self.use_stochastic_rounding:
+    if (self.use_sigmoid or self.negative_slope or
+        self.use_stochastic_rounding):
       flags.append(str(int(self.use_sigmoid)))
-    if self.negative_slope:
+    if self.negative_slope or self.use_stochastic_rounding:
       flags.append(str(self.negative_slope))
     if self.use_stochastic_rounding:
       flags.append(str(int(self.use_stochastic_rounding)))
@@ -2612,10 +2615,12 @@ class quantized_tanh(base_quantizer.BaseQuantizer):  # pylint: disable=invalid-n
     self.use_real_tanh = use_real_tanh
 
   def __str__(self):
+    # The flags are positional: a flag is also printed when a later one is set,
+    # so that every value stays in the slot of its own argument.
     flags = [str(self.bits)]
-    if self.use_stochastic_rounding:
+    if self.use_stochastic_rounding or self.symmetric or self.use_real_tanh:
       flags.append(str(int(self.use_stochastic_rounding)))
-    if self.symmetric:
+    if self.symmetric or self.use_real_tanh:
       flags.append(str(int(self.symmetric)))
     if self.use_real_tanh:
       flags.append(str(int(self.use_real_tanh)))
@@ -2679,10 +2684,13 @@ class quantized_sigmoid(base_quantizer.BaseQuantizer):  # pylint: disable=invali
     self.use_stochastic_rounding = use_stochastic_rounding
 
   def __str__(self):
+    # The flags are positional: a flag is also printed when a later one is set,
+    # so that every value stays in the slot of its own argument.
     flags = [str(self.bits)]
-    if self.symmetric:
+    if (self.symmetric or self.use_real_sigmoid or
+        self.use_stochastic_rounding):
       flags.append(str(int(self.symmetric)))
-    if self.use_real_sigmoid:
+    if self.use_real_sigmoid or self.use_stochastic_rounding:
       flags.append(str(int(self.use_real_sigmoid)))
     if self.use_stochastic_rounding:
       flags.append(str(int(self.use_stochastic_rounding)))
@@ -3070,10 +3078,13 @@ class quantized_relu_po2(base_quantizer.BaseQuantizer):  # pylint: disable=inval
     self.use_variables = use_variables
 
   def __str__(self):
+    # The flags are positional: a flag is also printed when a later one is set,
+    # so that every value stays in the slot of its own argument.
     flags = [str(self.bits)]
-    if self.max_value is not None or self.use_stochastic_rounding:
+    if (self.max_value is not None or self.negative_slope or
+        self.use_stochastic_rounding):
       flags.append(_po2_max_value_to_str(self.max_value))
-    if self.negative_slope:
+    if self.negative_slope or self.use_stochastic_rounding:
       flags.append(str(self.negative_slope))
     if self.use_stochastic_rounding:
       flags.append(str(int(self.use_stochastic_rounding)))
